@@ -141,7 +141,20 @@ class Guard:
         try:
             res = fn(*args)
         except IndexError as e:
-            ctx.violation("bc:IndexError:%s" % case.get("op", what), "bounds-checked build: %s: %s" % (case.get("op"), e), case)
+            import traceback
+
+            frames = traceback.extract_tb(e.__traceback__)
+            in_kernel = any("set_operations" in fr.filename for fr in frames)
+            if in_kernel or what != "insitu_calls":
+                ctx.violation("bc:IndexError:%s" % case.get("op", what), "bounds-checked build: %s: %s" % (case.get("op"), e), case)
+            else:
+                ctx.count("insitu_workload_raised(not the kernels)")
+        except Exception:
+            if what != "insitu_calls":
+                raise
+            # the in-situ workload is only a driver for the kernels: a failure elsewhere in the
+            # library is another property's business
+            ctx.count("insitu_workload_raised(not the kernels)")
         if self.watch is not None:
             text = self.watch.delta()
             if text and REPORT.search(text):
